@@ -366,7 +366,13 @@ func (e *Evaluator) evalEachStmt(node *ast.EachStmt, env *object.Env) object.Obj
 		return arrObj
 	}
 
-	elems := arrObj.(*object.Array).Elements
+	arr, isArr := arrObj.(*object.Array)
+
+	if !isArr {
+		return e.newError(node, fail.ErrEachRequiresArray, arrObj.Type())
+	}
+
+	elems := arr.Elements
 	elemsLen := len(elems)
 
 	// evaluate alternative block if array is empty
